@@ -42,11 +42,20 @@ def is_crash(line):
     return line.startswith("(raise (crash")
 
 
-def judge(case, obs):
+def violations(case, obs):
     doc, paths = case
     for i, line in enumerate(obs):
         if is_crash(line):
-            return "%s of %r on %r ended in %s" % (ec.MODES[i % 3], paths[i // 3], doc, line)
+            path, mode = paths[i // 3], ec.MODES[i % 3]
+            # the property limits collectors to operands that select scalars
+            if "(" in path and not ec.scalar_operands(doc, path, mode):
+                continue
+            yield path, mode, line
+
+
+def judge(case, obs):
+    for path, mode, line in violations(case, obs):
+        return "%s of %r on %r ended in %s" % (mode, path, case[0], line)
     return None
 
 
@@ -71,8 +80,22 @@ def nontrivial(case, obs):
     return any(l.startswith("(ok (") and l != "(ok ())" for l in obs)
 
 
-FINDING_PREDS = {}
+def f25_collector_then_text(case, obs):
+    """every crash of the case is the NotImplementedError of a COLLECTOR-typed segment without collector
+    terms (text glued to a closing parenthesis, e.g. '(a)b')"""
+    vs = list(violations(case, obs))
+    return bool(vs) and all(line == "(raise (crash NotImplemented))" and ec.collector_then_text(path)
+                            for path, _mode, line in vs)
+
+
+FINDING_PREDS = {"collector_then_text": f25_collector_then_text}
+
+
+def corpus_chunks():
+    yield [("{a: 1, b: 2}", ["(a)b", "(a)'b'", "a.(b)c"]),
+           ("[1]", ["[-2]", "/-2", "[0:9]", "[-9:1]"]), ("[null]", ["[.=x]"]), ("{a: [x]}", ["a[.=~/(/]"]),
+           ("{1: x, a: y}", ["[a:z]"]), ("[a]", ["[.={[1]:2}]"]), ("['{[1]: 2}']", ["[.=a]"])]
 
 
 def chunks(tier, seed):
-    return ec.chunk_list(ec.gen_cases(tier, seed, with_collectors=True), 12)
+    return ec.chunks_by_weight(ec.gen_cases(tier, seed, with_collectors=True))
